@@ -275,8 +275,10 @@ class G(object):
                 v.add(ch)
         if r.random() < 0.3:
             base = tops[0]
-            v = self.ti_variant(ti, "optional", dashed_uid="%s-optional" % base, vtype="optional")
-            ti.variants.add(v, variant_id=v.uid)
+            # UIDs are unique in a tree: no dashed top-level 'X-optional' next to a child 'optional' of X
+            if "optional" not in ti.variants.variants[base].variants:
+                v = self.ti_variant(ti, "optional", dashed_uid="%s-optional" % base, vtype="optional")
+                ti.variants.add(v, variant_id=v.uid)
         for p in sorted(ti.tree.platforms):
             if r.random() < 0.6:
                 ti.images.images[p] = dict((self.word("abcXYZ.", 1, 8), "images/%s/%s" % (p, self.word("abc.", 1, 6)))
